@@ -5,6 +5,7 @@
 import HL.Lemmas.SemTok
 import HL.Lemmas.SemTokGeom
 import HL.Lemmas.SemTokPlace
+import HL.Lemmas.SemTokLines
 import HL.Lemmas.SemTokWitness
 import HL.Model.SemTokPinned
 import Std.Data.String.ToNat
@@ -213,20 +214,20 @@ theorem ordered_disjoint (cls : Classes) (text : Bytes) (toks : List Token)
       | nil => trivial
       | cons t r => simp only [Bound]; omega)).1
 
-/-- **ordered_disjoint_inline (partial).**  … and every token stays inside its line, provided
-    every piece of text that becomes a token ends inside its line (`inlineB`, in the cursor's
-    columns: false only for a comment that swallows the CR of a CRLF line end, the open
-    finding crlf-comment-length). -/
+/-- **ordered_disjoint_inline (partial).**  … and every token stays inside its line as the
+    client counts it (UTF-16 units, CRLF or LF line ends not counted), provided the lexer's
+    line numbers are right (`lineOk`) and no comment token's value ends with the CR of a CRLF
+    line end (`devCrComment`, the open finding crlf-comment-length — the only guard). -/
 theorem ordered_disjoint_inline_partial (cls : Classes) (text : Bytes) (toks : List Token)
-    (lens : List Nat)
     (hx : extentsB text toks = true) (hc : cutsB text toks = true)
-    (hi : inlineB lens cls text toks = true) :
+    (hl : (mappedBody toks).all (fun t => lineOk text t && !devCrComment t) = true) :
     orderedDisjoint ((tokenize cls text toks).map absOf) = true ∧
-    ∀ a ∈ (tokenize cls text toks).map absOf, inLine lens a = true :=
+    ∀ a ∈ (tokenize cls text toks).map absOf, inLine (lineLens16 text) a = true :=
   have hx' : (mappedBody toks).all (extentOk text) = true ∧ chainB text (mappedBody toks) = true := by
     simpa [extentsB] using hx
   ⟨ordered_disjoint cls text toks hx hc,
-   tokGo_inline cls text lens {} toks hx'.1 (measAll_of_cuts cls text toks hx'.1 hc) hi⟩
+   tokGo_inline cls text (lineLens16 text) {} toks hx'.1 (measAll_of_cuts cls text toks hx'.1 hc)
+     (inlineB_of_contract cls text toks hx'.1 hc hl)⟩
 
 /-- **covers_lexeme (partial).**  A token that is not cut out of a comment covers exactly the
     lexeme of the lexer token it was made from (same line, same first and last UTF-16 unit, a
@@ -331,7 +332,6 @@ theorem tag_spans_wellformed (cls : Classes) (comment : Bytes) :
 
 def hypsHold (text : Bytes) (toks : List Token) : Bool :=
   extentsB text toks && cutsB text toks &&
-  inlineB (lineLens16 text) Classes.ascii text toks &&
   (mappedBody toks).all (fun t => lineOk text t && !devCrComment t)
 
 example : hypsHold W.cleanText W.cleanToks = true ∧
@@ -344,12 +344,10 @@ example : hypsHold W.codeText W.codeToks = true ∧ hypsHold W.quotedText W.quot
 /-! ### The open deviation, on the real lexer's output for its witness text -/
 
 /-- `; note` + CRLF: the comment token is one unit longer than its line (its value ends with
-    the CR, `devCrComment`; the hypothesis `inlineB` is false) although the lexer's output
-    honours the contract. -/
+    the CR, `devCrComment`) although the lexer's output honours the contract. -/
 theorem crlf_comment_length_counterexample :
     (tokenizeSrc Classes.ascii W.crlfText W.crlfToks).any (fun st =>
       devCrComment st.2 && !inLine (lineLens16 W.crlfText) (absOf st.1)) = true ∧
-    inlineB (lineLens16 W.crlfText) Classes.ascii W.crlfText W.crlfToks = false ∧
     (extentsB W.crlfText W.crlfToks && cutsB W.crlfText W.crlfToks &&
       (mappedBody W.crlfToks).all (lineOk W.crlfText)) = true := by decide +kernel
 
